@@ -874,6 +874,8 @@ func (s *UDPSession) GetOOBMaxSize() int {
 		return 0
 	}
 	// Packet layout: | conv (4B) | OOB payload |
+	s.mu.Lock()
+	defer s.mu.Unlock()
 	return int(s.kcp.mtu) - convSize
 }
 
